@@ -60,6 +60,7 @@ ROUTINGS = ["NONE", "NR", "NLNR"]
 BUFFERS = [0, 1, None]
 POLICIES = ["uniform", "racer", "starve", "late", "burst"]
 MOD = 1000003
+U64 = 1 << 64
 MAXSEARCH = 6
 
 
@@ -88,14 +89,27 @@ class MapFlavour:
 
     def sweep_keys(self):
         """a run of keys used by the ascending / descending sweeps (listed in ascending operator< order)"""
+        if self.kk == "u":
+            return [str((1 << 63) + 100 + i) for i in range(24)]
         return [str(100 + i) for i in range(24)] if self.kk == "i" else ["s%02d" % i for i in range(24)]
+
+    def pair_ops(self, rnd, k):
+        """two order-dependent operations on one key, to be issued by one rank"""
+        K, v, v2, a = qt(k), qt(self.rand_val(rnd)), qt(self.rand_val(rnd)), qt(self.rand_val(rnd))
+        if self.multi:
+            return rnd.choice([[["insm", K, v], ["era", K]], [["insm", K, v], ["vis", K, "1", a]], [["insm", K, v], ["insm", K, v2]],
+                               [["era", K], ["insm", K, v]]])
+        return rnd.choice([[["ins", K, v], ["era", K]], [["ins", K, v], ["ins", K, v2]], [["ins", K, v], ["vie", K, "1", a]],
+                           [["era", K], ["ins", K, v]], [["ins", K, v], ["red", K, v2, "0"]]])
 
     def absent_keys(self):
         """keys that are never inserted (targets of work that must not change anything)"""
+        if self.kk == "u":
+            return [str(U64 - 5000 + i) for i in range(12)]
         return [str(9000000 + i) for i in range(12)] if self.kk == "i" else ["absent%02d" % i for i in range(12)]
 
     def fixed_arg(self):
-        return "7" if self.vk == "i" else "w"
+        return "7" if self.vk in "iu" else "w"
 
     def sweep_op(self, rnd, k):
         v, a, K = qt(self.rand_val(rnd)), qt(self.rand_val(rnd)), qt(k)
@@ -107,11 +121,16 @@ class MapFlavour:
     def base_keys(self, rnd):
         if self.kk == "s":
             pool = ["", "a", "b", "ab", "k7", "Key_long_0123456789_abcdefghijklmnopqrstuvwxyz", "z", "A", "0", "a.b"]
+        elif self.kk == "u":
+            # uint64 keys over the whole range: bit 63 set, all ones, 2^63, 2^32 +- 1, ...
+            pool = [0, 4, 1 << 63, (1 << 63) + 4, U64 - 1, (1 << 32) - 1, (1 << 32) + 1, U64 - 4, 12345678901234567892, 0xDEADBEEFCAFEF00D]
         else:
             pool = [0, -1, 5, 42, -1000, 99999, 7, 8, 524288, -524287]
         return [str(x) for x in pool]
 
     def dk(self, k):
+        if self.kk == "u":
+            return str((int(k) + 1000000) % U64)
         return str(int(k) + 1000000) if self.kk == "i" else k + "~"
 
     def universe(self, base):
@@ -123,11 +142,15 @@ class MapFlavour:
     def rand_val(self, rnd):
         if self.vk == "s":
             return rnd.choice(["", "x", "yz", "v1", "Q", "m", "n", "longer-value_" + str(rnd.randrange(100)), "b", "c"])
+        if self.vk == "u":
+            return str(rnd.choice([0, 1, 1 << 63, U64 - 1, (1 << 32) - 1, (1 << 32) + 1, (1 << 63) + 12345, rnd.randrange(U64), rnd.randrange(U64)]))
         return str(rnd.randrange(0, 1000))
 
     def defaults(self, rnd):
         if self.vk == "s":
             return rnd.choice([("", "e"), ("d", ""), ("dflt", "other")])
+        if self.vk == "u":
+            return rnd.choice([(str(1 << 63), "17"), (str(U64 - 1), "0")])
         return rnd.choice([("0", "17"), ("5", "0")])
 
     # --- operations
@@ -266,12 +289,29 @@ def gen_scenario(fl, rnd, ranks, nblocks, onerank, scale=1.0, clearrace=False, c
         if use_sr and rnd.random() < p:
             add(f"sr {rnd.randrange(ranks)}")
 
+    forced = None
     for b in range(nblocks):
         blk = {"ops": [], "mut": None, "obs": [], "F": {}, "classes": {}}
         kind = "ops"
         if b > 0 and rnd.random() < 0.22:
             kind = rnd.choice(fl.mut_kinds())
-        if fl.mode == "map" and b > 0 and not clearrace and (copyloop or kind == "copy"):
+        plan, forced = forced, None
+        if (plan is None and fl.mode == "map" and not fl.multi and not clearrace and not copyloop and b + 1 < nblocks
+                and rnd.random() < 0.15):
+            # reductions around a swap: one rank reduces into a run of keys of container 0, the containers are swapped, the same
+            # rank reduces into the same keys of container 0 in the OPPOSITE order - on every owner the first key reduced after
+            # the swap is the last one reduced before it (or a single hot key)
+            sk = fl.sweep_keys()
+            run = sk[rnd.randrange(0, 8):][:rnd.choice([1, 2, 6, 12, 16])]
+            if rnd.random() < 0.5:
+                run = run[::-1]
+            r, rop = rnd.randrange(ranks), str(rnd.choice([0, 1, 2]))
+            plan = ("swap", [(r, 0, ["red", qt(k), qt(fl.rand_val(rnd)), rop]) for k in run])
+            forced = ("ops", [(r, 0, ["red", qt(k), qt(fl.rand_val(rnd)), rop]) for k in run[::-1]])
+        if plan is not None:
+            kind = plan[0]
+            blk["redswap"] = True
+        if plan is None and fl.mode == "map" and b > 0 and not clearrace and (copyloop or kind == "copy"):
             # copy construction: container 1 is destroyed and re-created as `C(container 0)`; the script goes on AT ONCE (no
             # barrier) on the copy and on the original.  Before the copy one rank may do a lot of work that changes nothing
             # (visit_if_exists of absent keys), so that ranks reach the copy constructor at different times.
@@ -304,7 +344,7 @@ def gen_scenario(fl, rnd, ranks, nblocks, onerank, scale=1.0, clearrace=False, c
             add("B")
             blocks.append(blk)
             continue
-        if clearrace and b > 0:
+        if plan is None and clearrace and b > 0:
             # clear() called collectively and followed IMMEDIATELY (no barrier) by new operations: a rank that leaves
             # clear()'s barrier early issues them while a slower rank may still be inside that barrier
             blk["mut"], blk["mut_first"] = ["clear", "0"], True
@@ -327,7 +367,9 @@ def gen_scenario(fl, rnd, ranks, nblocks, onerank, scale=1.0, clearrace=False, c
             blocks.append(blk)
             continue
         ops = []
-        if kind in ("ops", "swap") or (kind in fl.mut_with_ops()):
+        if plan is not None:
+            ops = list(plan[1])
+        elif kind in ("ops", "swap") or (kind in fl.mut_with_ops()):
             keys = list(base)
             rnd.shuffle(keys)
             if rnd.random() < 0.25:
@@ -357,8 +399,11 @@ def gen_scenario(fl, rnd, ranks, nblocks, onerank, scale=1.0, clearrace=False, c
                     cls, hops = fl.heavy_ops(rnd, k, int(rnd.randrange(7, 30) * scale))
                     for o in hops:
                         ops.append((rnd.randrange(ranks), c, o))
-                for k in rest[3:]:                           # singles
-                    if rnd.random() < 0.6:
+                for k in rest[3:]:                           # singles, or a dependent pair issued by ONE rank (per-sender order)
+                    if rnd.random() < 0.4:
+                        r, c = rnd.randrange(ranks), 0 if rnd.random() < pc0 else 1
+                        ops += [(r, c, o) for o in fl.pair_ops(rnd, k)]
+                    elif rnd.random() < 0.6:
                         ops.append((rnd.randrange(ranks), 0 if rnd.random() < pc0 else 1, fl.rand_op(rnd, k)))
                 rnd.shuffle(ops)
         for (r, c, o) in ops:
@@ -424,6 +469,11 @@ def run_case(binary, fl, case, scn_lines):
         env = {"YGM_COMM_ROUTING": case["routing"]}
         if case["buffer"] is not None:
             env["YGM_COMM_BUFFER_SIZE_KB"] = case["buffer"]
+        for knob, var in (("issend", "YGM_COMM_ISSEND_FREQ"), ("irecvs", "YGM_COMM_NUM_IRECVS"), ("isends_wait", "YGM_COMM_NUM_ISENDS_WAIT")):
+            if case.get(knob) is not None:
+                env[var] = case[knob]
+        if case.get("placement") == "cyclic":
+            env["SIMMPI_PLACEMENT"] = "cyclic"
         tc = case.get("twocomm")
         comms = f"{tc['order']}-{tc['split']}" if tc else "w"
         return C.run_sim(binary, [fl.what, fl.kinds, p, fl.variant, comms], nodes=case["nodes"], ppn=case["ppn"], env=env,
@@ -581,6 +631,8 @@ def analyse(fl, scn, outs, R, case, res, model_ok):
                     F[c][k] = F[c][k] + vs
         # ---- undo the mutation to obtain the contents right after the operations
         mut = blk["mut"]
+        if blk.get("redswap"):
+            res.count("blocks: reductions around a swap (opposite key order)")
         res.count("block:" + ("+".join(mut[:1] + mut[2:3]) if mut else ("sweep asc/desc" if blk.get("sweep") else "ops")) + ("" if blk["ops"] else "(no ops)")
                   + (" then ops without barrier" if blk.get("mut_first") else ""))
         for (_, d) in blk["obs"]:
@@ -633,6 +685,7 @@ def analyse(fl, scn, outs, R, case, res, model_ok):
         for c in (0, 1):
             main = [(li, r, o) for (li, r, cc, o) in blk["ops"] if cc == c]
             cbs_by_key, em_by_parent, em_all, cbseq, emseq, order = {}, {}, [], [], [], []
+            em_rank = []
             for r in range(R):
                 lastcb, in_consume = None, False
                 for e in ev[r]:
@@ -651,6 +704,7 @@ def analyse(fl, scn, outs, R, case, res, model_ok):
                             continue
                         em_by_parent.setdefault(lastcb, []).append(e[2])
                         em_all.append(e[2])
+                        em_rank.append(r)
                         emseq.append(e[2])
             order = [o for (cc, o) in pack_order if cc == c]
             allops = [o for (_, _, o) in main] + em_all
@@ -682,14 +736,18 @@ def analyse(fl, scn, outs, R, case, res, model_ok):
                     A.contended += 1
             else:
                 # ------------------------------------------------ (b) per key
+                # operations of one source (the main program of rank r, resp. the handlers of rank r) to one owner arrive in
+                # the order they were issued (per-sender FIFO): the order search keeps that order within every source
                 by_key = {}
                 for (li, r, o) in main:
-                    by_key.setdefault(fl.op_key(o), {"ops": [], "ranks": set()})
+                    by_key.setdefault(fl.op_key(o), {"ops": [], "ranks": set(), "src": []})
                     by_key[fl.op_key(o)]["ops"].append(o)
+                    by_key[fl.op_key(o)]["src"].append(f"@m{r}")
                     by_key[fl.op_key(o)]["ranks"].add(r)
-                for o in em_all:
-                    by_key.setdefault(fl.op_key(o), {"ops": [], "ranks": set()})
+                for o, er in zip(em_all, em_rank):
+                    by_key.setdefault(fl.op_key(o), {"ops": [], "ranks": set(), "src": []})
                     by_key[fl.op_key(o)]["ops"].append(o)
+                    by_key[fl.op_key(o)]["src"].append(f"@e{er}")
                     by_key[fl.op_key(o)]["ranks"].add(-1)
                 for k in set(cont[c]) | set(Q[c]) | set(cbs_by_key):
                     if k not in by_key:
@@ -703,19 +761,19 @@ def analyse(fl, scn, outs, R, case, res, model_ok):
                     post_k = {k: Q[c].get(k, [])} if Q[c].get(k) else {}
                     cbs_k = cbs_by_key.get(k, [])
                     em_k = em_by_parent.get(k, [])
-                    ctx = dict(block=bi, container=c, key=k, pre=pre_k.get(k, []), ops=[" ".join(x) for x in ops][:40], real=post_k.get(k, []),
+                    ctx = dict(block=bi, container=c, key=k, pre=pre_k.get(k, []), ops=[sr_ + " " + " ".join(x) for sr_, x in zip(info["src"], ops)][:40], real=post_k.get(k, []),
                                real_callbacks=[" ".join(x) for x in cbs_k][:40])
                     if len(info["ranks"]) >= 2 and len(ops) >= 2:
                         A.contended += 1
                     if len(ops) <= MAXSEARCH:
                         res.count("key-blocks-searched")
-                        line = (f"explain|{fl.model_prefix(d_ops[c])}|{fl.state_tokens(pre_k)}|" + ";".join(" ".join(o) for o in ops)
+                        line = (f"explain|{fl.model_prefix(d_ops[c])}|{fl.state_tokens(pre_k)}|" + ";".join(sr_ + " " + " ".join(o) for sr_, o in zip(info["src"], ops))
                                 + f"|{fl.state_tokens(post_k)}|" + ";".join(" ".join(x) for x in cbs_k))
 
                         def chk(o, ctx=ctx, em_k=em_k):
                             if o == "none":
-                                A.oracle(f"no sequential order of the {len(ctx['ops'])} operations on key {ctx['key']!r} explains the final "
-                                         f"values {ctx['real']} and the callback log", "no-sequential-order", **ctx)
+                                A.oracle(f"no sequential order (keeping every sender's program order) of the {len(ctx['ops'])} operations on key "
+                                         f"{ctx['key']!r} explains the final values {ctx['real']} and the callback log", "no-sequential-order", **ctx)
                                 return
                             f = o.split("|")
                             mem = [x.split() for x in f[1].split(";") if x.strip()]
@@ -805,8 +863,8 @@ def map_check_obs(fl, A, blk, bi, cont, segs, R):
                 A.oracle("topk differs between ranks", "topk-rank-disagree", block=bi, directive=d, answers=answers[:3])
             n = int(d[2])
             pairs = [(k, v) for k, vs in cont[c].items() for v in vs]
-            kf = (lambda x: int(x)) if fl.kk == "i" else (lambda x: x)
-            vf = (lambda x: int(x)) if fl.vk == "i" else (lambda x: x)
+            kf = (lambda x: int(x)) if fl.kk in "iu" else (lambda x: x)
+            vf = (lambda x: int(x)) if fl.vk in "iu" else (lambda x: x)
             import functools
 
             def cmpf(a, b):
@@ -862,6 +920,25 @@ def copy_loop_cases(flavours, tier, seed):
         cases.append({"fl": fls[i % len(fls)], "nodes": nodes, "ppn": ppn, "routing": ROUTINGS[i % 3], "buffer": [0, 0, None][(i // 3) % 3],
                       "policy": ["racer", "late", "burst"][(i // 2) % 3], "sim_seed": rnd.randrange(1, 1 << 30),
                       "gen_seed": rnd.randrange(1 << 30), "blocks": 6, "eager": rnd.choice([0, 50, 100]), "copyloop": True})
+    return cases
+
+
+def env_knobs(cases, seed):
+    """environment dimension, rotated over the existing cases (recorded in the case): YGM_COMM_ISSEND_FREQ in {0, 1, 8},
+    YGM_COMM_NUM_IRECVS in {1, 2, 8}, YGM_COMM_NUM_ISENDS_WAIT in {0, 1, 4}; cyclic placement for a third of the multi-node cases"""
+    per = {}
+    for case in cases:
+        key = (case["fl"].what, case["fl"].kinds, case["fl"].variant)
+        j = per.get(key, len(per) * 5 + seed)      # a different phase per flavour
+        per[key] = j + 1
+        case["issend"] = [8, 0, 1][j % 3]
+        case["irecvs"] = [8, 1, 2][(j // 3 + j) % 3]
+        case["isends_wait"] = [4, 0, 1][(j // 9 + j // 2) % 3]
+        if case["nodes"] > 1 and j % 3 == 2:
+            case["placement"] = "cyclic"
+        # capacity 0 together with 8 posted receives: messages of one sender travel one by one and several can be complete at a poll
+        if case["nodes"] * case["ppn"] > 1 and j % 7 == 3:
+            case["buffer"], case["irecvs"] = 0, 8
     return cases
 
 
@@ -970,6 +1047,7 @@ def run_flavours(flavours, tier, seed, model_ok, rule, assumptions, race_env=Non
     elif race_env:
         res.notes.append(f"scenario 'clear() followed immediately by new operations, no barrier' is OFF (known finding *-clear-race); "
                          f"enable with {race_env}=1")
+    env_knobs(cases, seed)
     out = C.pmap(lambda c: do_case(binary, c, model_ok), cases)
     for case, frag, info in out:
         fl = case["fl"]
@@ -984,6 +1062,12 @@ def run_flavours(flavours, tier, seed, model_ok, rule, assumptions, race_env=Non
         res.count("routing=" + case["routing"])
         res.count("buffer=" + str(case["buffer"]))
         res.count("policy=" + case["policy"])
+        res.count(f"issend_freq={case.get('issend')}")
+        res.count(f"num_irecvs={case.get('irecvs')}")
+        res.count(f"num_isends_wait={case.get('isends_wait')}")
+        if case.get("placement"):
+            res.count("placement=cyclic")
+        res.count(f"{fl.what} buffer={case['buffer']}")
         res.count("operations", info["nops"])
         if case.get("clearrace"):
             res.count("cases: clear() then operations without barrier")
@@ -1006,7 +1090,8 @@ def run_flavours(flavours, tier, seed, model_ok, rule, assumptions, race_env=Non
 
 
 FLAVOURS = ([MapFlavour(w, k, v) for v in ("d", "g") for w in ("map", "multimap") for k in ("ss", "is", "si")]
-            + [MapFlavour(w, k, "p") for w in ("map", "multimap") for k in ("ss", "is")])
+            + [MapFlavour(w, k, "p") for w in ("map", "multimap") for k in ("ss", "is")]
+            + [MapFlavour(w, k, "d") for w in ("map", "multimap") for k in ("uu", "us")])
 ASSUME = ["every operation is executed exactly once, atomically, on owner(key) before the barrier returns (C01/C02/C08; Dist.Complete)",
           "std::multimap keeps equal keys in insertion order; std::hash is a parameter (owners are read from the real run)",
           "runs aborted by the messaging layer (comm.ipp assertion, deadlock) are C03's subject and are skipped here, counted in the distribution"]
